@@ -98,10 +98,27 @@ package sync
 //@   trusted
 //@   ensures !result.IsZero() ==> verified(result)
 
-//@ func (*ranges).Add(rs, h)
+//@ func (*ranges).head(rs)
 //@   trusted
+//@   ensures len(rs.ranges) == 0 ==> result.IsZero()
+
+//@ func (*headerRange).Append(r, h)
+//@   trusted
+//@   modifies headerRange.headers, elems(H)
+
+//@ func newRange(h)
+//@   trusted
+//@   ensures result != nil && fresh(result)
+
+// pending ranges never overlap (C07): a header that is not above the current pending head is dropped, it neither
+// extends a range nor starts a new one
+//@ func (*ranges).Add(rs, h)
+//@   props C03, C07
 //@   requires [C03] verified-pending: verified(h)
+//@   ghost hd H := result0 of call head #0
 //@   modifies ranges.ranges, headerRange.headers, headerRange.start, elems(H), EH_Int
+//@   ensures [C07] not-above-head-is-dropped: !hd.IsZero() && h.Height() <= hd.Height() ==> len(rs.ranges) == old(len(rs.ranges))
+//@   ensures [C07] grows-by-at-most-one: len(rs.ranges) == old(len(rs.ranges)) || len(rs.ranges) == old(len(rs.ranges)) + 1
 
 //@ func (*syncStore).Head(s, ctx)
 //@   trusted
